@@ -43,6 +43,17 @@ def _cases(tier, rng):
         sp = rng.choice([['group_by', f, inner], ['split', f, inner]])
         term = rng.choice([[sp], [['group_by', ['mod', 2], [sp]]], [['roll', 3, 3, [sp]]], [sp, ['count', True]]])
         yield {'kind': 'mux', 'term': term, 'items': muxgen.gen_items(rng), 'no_model': True}
+    # mux errors that are not terminal: a raising map upstream of split, ignored inside the segment pipeline and after split;
+    # the key goes on, and every boundary must stay well-formed
+    for i in range({'quick': 80, 'thorough': 600, 'search': 30}[tier]):
+        k, rr = rng.choice([(2, 0), (2, 1), (3, 0), (3, 2), (4, 1)])
+        inner = [['ignore']] + rng.choice([[['to_list']], [['count', True]], [['last']], []])
+        # split is the splitter that keeps its segment open across a mux error of the parent key (group_by, roll and time_split
+        # end their inner lifetimes with the error: a key that goes on afterwards is outside the modelled domain, §I.4)
+        sp = ['split', rng.choice([['floordiv', 3], ['mod', 2], ['floordiv', 2]]), inner]
+        core = [['map', ['raise_if_mod', k, rr]], sp, ['ignore']]
+        term = rng.choice([core, core, [['group_by', ['mod', 2], core]]])
+        yield {'kind': 'mux', 'term': term, 'items': muxgen.gen_items(rng), 'no_model': True}
     n = {'quick': 1500, 'thorough': 8000, 'search': 600}[tier]
     for i in range(n):
         nest = 2 if tier != 'thorough' else rng.choice([2, 2, 3])
